@@ -89,6 +89,11 @@ fn run_item(db: &VarDb, it: &Value) -> Value {
             let b = ty_of(&it["b"]);
             json!({"r": a.could_match(ChalkIr, db, &b)})
         }
+        "could_match_args" => {
+            let a: Vec<GenericArg<ChalkIr>> = it["a"].as_array().map(|x| x.iter().map(arg_of).collect()).unwrap_or_default();
+            let b: Vec<GenericArg<ChalkIr>> = it["b"].as_array().map(|x| x.iter().map(arg_of).collect()).unwrap_or_default();
+            json!({"r": a.as_slice().could_match(ChalkIr, db, b.as_slice())})
+        }
         other => json!({"error": format!("unknown op {}", other)}),
     }
 }
